@@ -33,6 +33,7 @@ inductive Label where
   | retrieve (a : Nat)        -- NewConnection(a) or ServeHTTP for a source mapped to a
   | sweep (as : List Nat)     -- one cleaner tick: the addresses whose connections are idle past the timeout
   | writeFail (i : Nat)       -- a Write on object i fails and calls its cancel hook
+  | writeGaveUp (i : Nat)     -- a Write on object i ends with its caller's context: an error, no cancel hook (aeb94ff)
   deriving DecidableEq, Repr
 
 /-- `unregisterLocked(a)` -/
@@ -57,6 +58,10 @@ def step (s : State) : Label → Option State
     match s.objs[i]? with
     | none => none
     | some o => some (unregisterLocked s o.addr)
+  | .writeGaveUp i =>
+    match s.objs[i]? with
+    | none => none
+    | some _ => some s
 
 def run : State → List Label → Option State
   | s, [] => some s
